@@ -71,7 +71,7 @@ CLAIMS = {
   ref="3 C04"),
  "C05": dict(
   technique="registry exhaustiveness (types implementing Format vs constructor switch), sibling agreement between FMTP() writers and unmarshal() readers (key to field), map-range commutativity, typestate of the SDP reader, zone-domain bounds analysis",
-  text="Decides structural necessary conditions of the SDP round trip: every format type is constructible by format.Unmarshal; each fmtp key a format writes from a field is read back into the same field (including keys written through a local literal table); no SDP or format parser lets the parsed value depend on map iteration order; the SDP reader reaches 'latest media / time description' accessors only after one was appended; no index or slice expression in the SDP, description, format, MIKEY and header packages can go out of bounds. Does not decide equality of the parsed-back value.",
+  text="Decides structural necessary conditions of the SDP round trip: every format type is constructible by format.Unmarshal; each fmtp key a format writes from a field is read back into the same field (including keys written through a local literal table); no SDP or format parser lets the parsed value depend on map iteration order; the SDP reader reaches 'latest media / time description' accessors only after one was appended; no index or slice expression in the SDP, description, format, MIKEY and header packages can go out of bounds. Does not decide equality of the parsed-back value. Round 4 addition: Media.Marshal consults RTPMap() and FMTP() for every format (no accessor is skipped depending on another's result).",
   note="Trusts: the reviewed bounds table; pion/sdp types; mediacommon codec config parsers.",
   ref="3 C05"),
  "C10": dict(
